@@ -321,3 +321,37 @@ ROUND5 = {
 for _k, _v in ROUND5.items():
     if _k in CLAIMS:
         CLAIMS[_k]['text'] += '  Round 5: ' + _v
+
+# what round 6 added to each claim (DESIGN.md section 13.9)
+ROUND6 = {
+    'C01': 'a check-after-use contradiction rule over the 51 parser functions of the inventory (no table element is read through an index before the test that '
+           'rejects on it); every extent test of Pass::readPass dominates every decoder; no computed size is narrowed into a 16-bit local (defect F20, repaired); '
+           'the preload constructor nulls the published pool head where it gives a pool up; a failed realloc frees the old block.',
+    'C02': 'Segment::newSlot interpreted for every small block size (the free list is exactly the rest of the new block, the slot handed out is unlinked); the stack '
+           'constants are found as enumerators too, so a signed ENDOP division is reported.',
+    'C03': 'INSERT and DELETE handlers interpreted on every stream of up to 3 slots x current slot (live, null, deleted earlier) x high-water mark: a well-formed '
+           'chain with exactly the one slot added / removed, count in step; reverseSlots and newSlot interpreted (shared with C19, C02); the advance cache starts initialised.',
+    'C04': 'Slot::child / removeChild on every child chain of up to 4 and every argument; Segment::freeSlot on every position among up to 3 siblings with 0..2 own or '
+           'inherited children; collectGarbage follows every rule action, also in the tracing branch (tracepass configuration); reverseSlots leaves m_first / m_last at the ends.',
+    'C05': 'reverseSlots interpreted (shared): no slot drops out of the stream.',
+    'C06': 'the first high-water mark of Pass::runGraphite is taken after the reversal.',
+    'C07': 'DRIVERS: the registers of the call-threaded interpreter that alias machine state (status, smap, ip) are references.',
+    'C09': 'the telemetry rule orders guard and raw set_category inside a block too.',
+    'C10': 'the preload box loop starts at glyph 0; AGREE includes a format 4 table whose last segment is a real range (defect F21, repaired).',
+    'C11': 'ERRSET (every valid-encoding return hands pError to count_unicode_chars); COUNTEXACT also for UTF-8; _utf_codec<8/16>::get and ::put give the scalar value / '
+           'the standard encoding on a grid of 25 scalar values.',
+    'C13': 'the glyph arithmetic of CmapSubtable4Lookup by concrete execution (idDelta wrap, near and far glyph arrays); the fill ranges of the cached cmap are the '
+           'ranges DirectCmap answers from, U+FFFF and U+10FFFF included.',
+    'C14': 'the ownership flag of Face::Table changes only together with the pointer (no release() in between).',
+    'C15': 'the size parameter reaches m_scale unmodified (no assignment, no replacement expression on the way).',
+    'C16': 'ownership summary by released fields (a pointer stored into a field the class never releases is borrowed); failed realloc; decompress drops the borrowed '
+           'buffer only through release(); flag and pointer change together; pool heads.',
+    'C17': 'Zones::exclude_with_margins removes the hard range on every path; initSlot reads no member before re-assigning it from a parameter.',
+    'C18': 'SillMap::cloneFeatures interpreted on every order of up to 3 language entries; the UTF converters behind the label API are exact on the scalar grid.',
+    'C19': 'Segment::reverseSlots interpreted on every stream of up to 5 (thorough: 8) slots x combining-mark placement: well-formed chain of the same slots, the '
+           'documented cluster order, and its own inverse; newSlot hands out an unlinked slot.',
+    'C20': 'the public headers are parsed: no pointer-taking API function is declared __attribute__((const)); a tag normaliser is recognised in any src/ file.',
+}
+for _k, _v in ROUND6.items():
+    if _k in CLAIMS:
+        CLAIMS[_k]['text'] += '  Round 6: ' + _v
